@@ -16,6 +16,7 @@ import (
 	listener "github.com/envoyproxy/go-control-plane/envoy/config/listener/v3"
 	hcm "github.com/envoyproxy/go-control-plane/envoy/extensions/filters/network/http_connection_manager/v3"
 
+	"istio.io/istio/pilot/pkg/features"
 	"istio.io/istio/pilot/pkg/model"
 	"istio.io/istio/pilot/pkg/xds"
 	"istio.io/istio/pilot/test/xdstest"
@@ -255,12 +256,125 @@ func opNames(w *world, o Op) []string {
 	return []string{o.N}
 }
 
+// ---------------------------------------------------------------- router flavour
+//
+// Both clients are one ingress gateway pod (node type router, label istio=ingressgateway) and the
+// server runs with PILOT_FILTER_GATEWAY_CLUSTER_CONFIG: CDS holds only the services that
+// VirtualServices bound to the proxy's Gateway route to, so VirtualService / Gateway / ServiceEntry
+// / DestinationRule changes drive the Router arms of delta CDS (GatewayServices,
+// ServiceAttachedToGateway) and the gateway listener / route builders.
+
+const routerGateway = "gw-1"
+
+var gwServerSets = [][]string{
+	{"80|HTTP|*.example.com"},
+	{"80|HTTP|*.example.com", "8080|HTTP|a.example.com"},
+	{"80|HTTP|*"},
+	{"8080|HTTP|*.example.com"},
+}
+
+func genGW(r *wire.Rng, clock *int) Op {
+	*clock++
+	return Op{K: "gw", N: routerGateway, Ns: proxyNs, T: *clock, Srv: wire.Pick(r, gwServerSets)}
+}
+
+func asRouter(e *envoy, name string) {
+	e.nodeID = "router~10.30.0.7~" + name + "." + proxyNs + "~" + proxyNs + ".svc.cluster.local"
+	e.meta.Labels = map[string]string{"istio": "ingressgateway"}
+}
+
+func genRouterOp(r *wire.Rng, w *world, clock *int) Op {
+	for {
+		if r.Chance(1, 8) {
+			if old, ok := w.Cfg["gw/"+proxyNs+"/"+routerGateway]; ok {
+				if r.Chance(1, 4) {
+					return Op{K: "del", Kind: "gw", N: routerGateway, Ns: proxyNs}
+				}
+				o := genGW(r, clock)
+				o.T = old.T
+				if !sameOp(old, o) {
+					return o
+				}
+				continue
+			}
+			return genGW(r, clock)
+		}
+		o := genOp(r, w, clock)
+		switch {
+		case o.K == "sc" || (o.K == "del" && o.Kind == "sc") || o.N == inboundSE:
+			continue // no Sidecar for a gateway; the proxy address of the inbound entry is the sidecar's
+		case o.K == "vs":
+			if r.Chance(4, 5) {
+				o.Gw = []string{proxyNs + "/" + routerGateway}
+			}
+		case o.K == "ef" && o.Mode == "cluster":
+			o.Mode = "gwcluster"
+		}
+		if old, ok := w.Cfg[o.key()]; ok && sameOp(old, o) {
+			continue
+		}
+		return o
+	}
+}
+
+func genC03Router(r *wire.Rng) *History {
+	h := &History{Stream: "c03", Flavor: "router", Debounce: wire.Pick(r, []int{0, 5, 20}), Explicit: r.Chance(1, 2)}
+	clock := 0
+	for _, o := range genBase(r, &clock) {
+		switch {
+		case o.K == "sc" || o.N == inboundSE:
+			continue
+		case o.K == "vs":
+			o.Gw = []string{proxyNs + "/" + routerGateway}
+		case o.K == "ef" && o.Mode == "cluster":
+			o.Mode = "gwcluster"
+		}
+		h.Base = append(h.Base, o)
+	}
+	if r.Chance(5, 6) {
+		h.Base = append(h.Base, genGW(r, &clock))
+	}
+	w := newWorld(false)
+	for _, o := range h.Base {
+		w.note(o)
+	}
+	// a gateway without routes holds no service cluster at all: start with one bound VirtualService
+	if r.Chance(3, 4) {
+		o := genVS(r, "vs-1", &clock)
+		o.Gw = []string{proxyNs + "/" + routerGateway}
+		if old, ok := w.Cfg[o.key()]; ok {
+			o.T = old.T
+		}
+		w.note(o)
+		h.Base = append(h.Base, o)
+	}
+	steps := 4 + r.Intn(5)
+	for i := 0; i < steps; i++ {
+		n := 1
+		if r.Chance(1, 5) {
+			n = 2
+			h.Debounce = 50
+		}
+		var ops []Op
+		for j := 0; j < n; j++ {
+			o := genRouterOp(r, w, &clock)
+			w.note(o)
+			ops = append(ops, o)
+		}
+		h.Steps = append(h.Steps, ops)
+	}
+	return h
+}
+
 func genC03(r *wire.Rng) *History {
 	if ztEnabled && r.Chance(1, 4) {
 		return genC03Zt(r)
 	}
 	wideGrammar = true
 	defer func() { wideGrammar = false }()
+	if r.Chance(1, 5) {
+		return genC03Router(r)
+	}
 	h := &History{Stream: "c03", Flavor: "envoy", Debounce: wire.Pick(r, []int{0, 5, 20}), Explicit: r.Chance(1, 2)}
 	clock := 0
 	h.Base = genBase(r, &clock)
@@ -440,12 +554,21 @@ func merge(a map[string]any, b map[string]any) map[string]any {
 
 func runC03(h *History, stt *stats) result {
 	w := h.baseWorld()
+	if h.Flavor == "router" {
+		old := features.FilterGatewayClusterConfig
+		features.FilterGatewayClusterConfig = true
+		defer func() { features.FilterGatewayClusterConfig = old }()
+	}
 	st := newSite(w, time.Duration(h.Debounce)*time.Millisecond)
 	stt.Servers++
 	defer st.close()
 
 	sotw := newEnvoy("sotw", false, "app-sotw")
 	delta := newEnvoy("delta", true, "app-delta")
+	if h.Flavor == "router" {
+		asRouter(sotw, "gw-sotw")
+		asRouter(delta, "gw-delta")
+	}
 	delta.explicit = h.Explicit
 	sotw.connect(st, connectOpts{})
 	delta.connect(st, connectOpts{})
@@ -562,6 +685,6 @@ func runC03(h *History, stt *stats) result {
 		}
 	}
 	hd := sotw.snapshot()
-	return result{OK: true, Summary: "c03 envoy steps=" + itoa(len(h.Steps)) + " held=" + itoa(len(hd["CDS"])) + "/" + itoa(len(hd["EDS"])) + "/" +
+	return result{OK: true, Summary: "c03 " + h.Flavor + " steps=" + itoa(len(h.Steps)) + " held=" + itoa(len(hd["CDS"])) + "/" + itoa(len(hd["EDS"])) + "/" +
 		itoa(len(hd["LDS"])) + "/" + itoa(len(hd["RDS"])) + " ops=" + opsShort(h.Steps)}
 }
